@@ -118,16 +118,16 @@ impl Check for GraphCheck {
             let r = solo.with(|| {
                 catch(|| {
                     rustradio::verif::set_stream_size(small);
-                    let built = build(&recipe);
+                    let mut built = build(&recipe);
                     rustradio::verif::set_stream_size(0);
-                    let mut blocks: Vec<Option<Box<dyn Block + Send>>> = built.blocks.into_iter().map(Some).collect();
+                    let mut blocks: Vec<Option<Box<dyn Block + Send>>> = std::mem::take(&mut built.blocks).into_iter().map(Some).collect();
                     assert_eq!(blocks.len(), order.len(), "recipe.nblocks() disagrees with build()");
                     let mut g = Graph::new();
                     for &i in &order {
                         g.add(blocks[i].take().unwrap());
                     }
                     let r = g.run().map_err(|e| e.to_string());
-                    (r, built.sink.bytes())
+                    (r, built.all_sink_bytes())
                 })
             });
             ctx.steps += 1;
@@ -269,10 +269,10 @@ fn graph_cancel(src: &mut Src, ctx: &mut RunCtx) -> RunResult {
     let r = solo.with(|| {
         catch(|| {
             rustradio::verif::set_stream_size(small);
-            let built = build(&recipe);
+            let mut built = build(&recipe);
             rustradio::verif::set_stream_size(0);
             let mut blocks: Vec<Option<Box<dyn Block + Send>>> = Vec::new();
-            for (i, b) in built.blocks.into_iter().enumerate() {
+            for (i, b) in std::mem::take(&mut built.blocks).into_iter().enumerate() {
                 let name = b.block_name().to_string();
                 let b: Box<dyn Block + Send> = if i == who {
                     Box::new(CancelAt { inner: b, token: token_slot.clone(), k, calls: 0, probe: probe.clone() })
@@ -348,10 +348,10 @@ fn graph_fail(src: &mut Src, ctx: &mut RunCtx) -> RunResult {
     let r = solo.with(|| {
         catch(|| {
             rustradio::verif::set_stream_size(small);
-            let built = build(&recipe);
+            let mut built = build(&recipe);
             rustradio::verif::set_stream_size(0);
             flag = built.fail_flags.first().cloned();
-            let mut blocks: Vec<Option<Box<dyn Block + Send>>> = built.blocks.into_iter().map(Some).collect();
+            let mut blocks: Vec<Option<Box<dyn Block + Send>>> = std::mem::take(&mut built.blocks).into_iter().map(Some).collect();
             let mut g = Graph::new();
             for &i in &order {
                 g.add(blocks[i].take().unwrap());
